@@ -253,7 +253,8 @@ SIGS = ['x', 'x, y=2', 'x, y', 'x, *args', '*args', 'x, y=2, **kw', 'x, y=2, *ar
 
 # values: no two of them are ==-equal with different type/repr (merging by an untyped
 # keymap is C10's subject, not the cache engine's); no '/', no NaN, no address reprs.
-UNIVERSE = [0, 1, 2, 3, 'a', 'b', 'B', 'a-b', 'a_b', '1', 2.5, -1, None, (1, 2), 'x']
+UNIVERSE = [0, 1, 2, 3, 'a', 'b', 'B', 'a-b', 'a_b', '1', 2.5, -1, None, (1, 2), 'x',
+            u'\u00fcn\u00ef', b'xy', (1, (2, 'z')), 10 ** 20, '']
 
 
 def gen_call(rng, sig, universe):
